@@ -12,11 +12,25 @@ NA = {
 }
 
 # property -> (engine, level, design_ref, technique, text, note)
+TRUST = "Trusted: the simulator (seeded scheduler over testing/synctest, simos durability model: ordered namespace journal + per-file prefix of unsynced writes + torn next write), the instrumenter's rewrites, the reference model (independent evaluator for the query subset used). Not covered: data races at memory-access granularity, bit-rot, non-journaled directory semantics, gRPC/HTTP framing. A clean batch is evidence, not proof."
+T = "deterministic simulation with fault injection: "
 CHECKS = {
- "C01": ("storesim", "fault_enumeration", "DESIGN.md 7/C01",
-   "deterministic simulation: seeded crash-point and power-loss-image search over ingest/restart histories of the real store on a simulated disk, refinement against a reference model",
-   "Seeded search over ingest histories x crash points (k-th write/sync/any mutating disk operation of the write path, power-loss images with lost and torn tails, process exit) x 1-4 restart+ingest rounds on the real FracManager+GrpcV1 running on a simulated disk under a seeded scheduler; after every restart all acknowledged documents must be searchable by every token and fetchable byte for byte, unacknowledged bulks all-or-none, the store must come back up. Evidence, not proof: thousands of distinct histories per minute, every failure replays from its file.",
-   "Trusted: the simulator (scheduler, simos durability model: ordered namespace journal + per-file prefix of unsynced writes + torn next write), the instrumenter's rewrites, the reference model. Not covered: bit-rot, non-journaled directory semantics, gRPC framing."),
+ "C01": ("storesim", "fault_enumeration", "DESIGN.md 7/C01", T + "seeded crash-point / power-loss-image search over ingest+restart histories of the real store on a simulated disk, refinement against a reference model",
+   "Seeded search over ingest histories x crash points (k-th write/sync/any mutating disk operation of the write path, power-loss images with lost and torn tails, process exit) x 1-4 restart+ingest rounds on the real FracManager+GrpcV1; after every restart all acknowledged documents are searchable by every token and fetchable byte for byte, unacknowledged bulks all-or-none, the store comes back up.", TRUST),
+ "C03": ("storesim", "exploration", "DESIGN.md 7/C03", T + "seeded corpora and knob swarm; the same battery answered by active / sealed-preloaded / sealed-from-file fractions under timer-driven cache eviction, compared with a reference model",
+   "Seal, restart and cache eviction are driven as simulated I/O transitions and timer events; the battery must equal the model in every form. Shape coverage is what the knob swarm and corpus generator reach, not exhaustive over corpora.", TRUST),
+ "C07": ("storesim", "exploration", "DESIGN.md 7/C07", T + "seeded schedule exploration (pre-emption at every lock/channel/wait and at statement level) of writers, readers, maintenance loop and cache cleaner on the real store; invariants inside readers, model equality at quiescence, liveness on the simulated clock",
+   "Explores interleavings of critical sections, channel hand-offs and statements; checks no panic/deadlock/error, every returned ID submitted+matching+fetchable with exact bytes, full equality with the sequential model once writers are idle. Does not detect data races as such.", TRUST),
+ "C08": ("storesim", "fault_enumeration", "DESIGN.md 7/C08", T + "crash-point enumeration (k-th disk operation of a seal, consecutive seeds walk k) and k-th-I/O-error injection on the index/sorted-docs outputs, restart, refinement against the model",
+   "Every seal is hit by exactly one planned fault: crash/exit at the k-th mutating disk operation or a failing write/sync/rename/create; the published fraction is validated at once and after restart; all documents must remain searchable and fetchable.", TRUST),
+ "C14": ("storesim", "exploration", "DESIGN.md 7/C14", T + "simulated-clock exploration: document times relative to the fake clock, clock jumps, restart with tampered .frac-cache; results compared with a model that examines every document",
+   "Decides the clock/restart facet: the per-minute distribution only exists relative to the clock (10-minute rule, 24h clip) and is restored from persisted info; range queries around borders must equal the model. The pure bitmap arithmetic over all inputs is not enumerated.", TRUST),
+ "C15": ("storesim", "fault_enumeration", "DESIGN.md 7/C15", T + "seeded crash points at namespace operations (create/rename/remove/dirsync) during create/rotate/seal/retention/.frac-cache cycles, power-loss images, tampered cache file; invariants over the set of served fractions after restart",
+   "After every crash image the store starts; each known fraction is wholly served or wholly gone; served fractions are the newest; a fraction with .del files in the image never serves again.", TRUST),
+ "C17": ("storesim", "exploration", "DESIGN.md 7/C17", T + "seeded re-delivery histories incl. concurrent repeats under schedule exploration, seal and restart; set-semantics reference model",
+   "Re-delivered documents are listed once and fetch their original bytes; totals, histograms, aggregations and document counts count them once while all copies sit in one fraction.", TRUST),
+ "C19": ("storesim", "fault_enumeration", "DESIGN.md 7/C19", T + "crash after the k-th persisted partial result / inside the atomic file write of the asynchronous searcher, restart, bounded liveness on the simulated clock, equality with the synchronous search and the model",
+   "A restart is injected after any number of persisted partial results; the request must survive, resume, report done within one simulated hour and return the same ids, histogram and aggregations as the synchronous search.", TRUST),
 }
 
 def main():
